@@ -52,7 +52,8 @@ import (
 //   - An NFA (the source automaton) — immutable
 //   - A configuration — immutable
 //   - An optional prefilter for fast candidate finding — immutable
-//   - A PikeVM for NFA fallback — shared with Engine (Issue #158)
+//   - A PikeVM for NFA fallback — may be shared with Engine (Issue #158); safe for
+//     concurrent use: each of its searches runs on its own pooled scratch state
 //   - ByteClasses for alphabet reduction — immutable
 //
 // Thread safety: The DFA struct is immutable after compilation and safe
